@@ -1,5 +1,6 @@
 import IrVerif.Drive.Util
 import IrVerif.Model.AtomicSave
+import IrVerif.Model.AtomicSaveLinks
 /-! Protocol handler for the C08 model (`asave.run`, `asave.image`, `asave.writeat`).
 
 Request `asave.run`:
@@ -10,7 +11,12 @@ Request `asave.run`:
   small: [[id, ext]]                    (unload only)
   faults: [[k, p]]                      (effect index k fails after p bytes)
   universe: [name], exts: [[id, ext]]   (what to report)
-Answer: trace, raised, final state, state at the first failed step (crash), overwritten ids. -/
+Answer: trace, raised, final state, state at the first failed step (crash), overwritten ids.
+  kind "marked": writer: [[tag, args.., failed, p]] (a writer block in which failed effects do not end the block)
+  kind "shardedAll": jobs in the order the shard drivers ran them, a failing shard does not stop the others
+Request `asave.resolveL`: links [[loc, abs, target]], gas, requested -> destination path, entry, temp parent, ...
+Request `asave.runL` (kind "saveL" | "shardedL"): the save on a file system with symbolic links.
+Request `asave.parvalid`: is the writer trace in the language of `_write_parallel`? -/
 open Lean IrVerif.Drive
 namespace IrVerif.Drive.AtomicSave
 open IrVerif.AtomicSave
@@ -123,6 +129,22 @@ def getWriterEff (x : Json) : Except String Eff := do
   | "closew" => return .closeW (← nat 1)
   | t => throw s!"not a writer effect: {t}"
 
+/-- `[tag, args.., failed, p]`: a writer effect with its fate. -/
+def getMarked (x : Json) : Except String Marked := do
+  let a ← (fromJson? x : Except String (Array Json))
+  if a.size < 3 then throw "marked effect too short"
+  let e ← getWriterEff (Json.arr (a.extract 0 (a.size - 2)))
+  let failed ← (fromJson? a[a.size - 2]! : Except String Bool)
+  let p ← (fromJson? a[a.size - 1]! : Except String Nat)
+  return (e, if failed then some p else none)
+
+def getJobs (j : Json) : Except String (List (String × List Tensor)) := do
+  (← getArr j "jobs").mapM fun x => do
+    let a ← (fromJson? x : Except String (Array Json))
+    let d ← (fromJson? a[0]! : Except String String)
+    let ts ← (← (fromJson? a[1]! : Except String (Array Json))).toList.mapM getTensor
+    return (d, ts)
+
 def stepJ (s : Step) : Json := Json.arr (effJ s.eff ++ [Json.bool s.failed]).toArray
 
 def inoJ (s : St) : Option Nat → Json
@@ -166,6 +188,13 @@ def run (j : Json) : Except String Json := do
         let cfg : Cfg := ⟨⟨← getStr j "dest", newMode⟩, ← getTensors j "tensors", cb⟩
         let writer ← (← getArr j "writer").mapM getWriterEff
         pure (saveWriter cfg writer f 0 s0, overwritten cfg s0, invalidated cfg s0)
+    | "marked" => do
+        let cfg : Cfg := ⟨⟨← getStr j "dest", newMode⟩, ← getTensors j "tensors", cb⟩
+        let m ← (← getArr j "writer").mapM getMarked
+        pure (saveMarked cfg m f 0 s0, overwritten cfg s0, invalidated cfg s0)
+    | "shardedAll" => do
+        let jobs ← getJobs j
+        pure (saveShardedAll newMode cb jobs f s0, [], [])
     | "sharded" => do
         let jobs ← (← getArr j "jobs").mapM fun x => do
           let a ← (fromJson? x : Except String (Array Json))
@@ -189,9 +218,137 @@ def run (j : Json) : Except String Json := do
     ("overwritten", natsJ ow),
     ("invalidated", natsJ inv)]
 
+
+/-! ### File system with symbolic links -/
+
+def getComps (x : Json) : Except String Comps := do
+  let a ← (fromJson? x : Except String (Array String))
+  return a.toList
+
+def getLinks (j : Json) : Except String Links := do
+  (← getArr j "links").mapM fun x => do
+    let a ← (fromJson? x : Except String (Array Json))
+    let loc ← getComps a[0]!
+    let ab ← (fromJson? a[1]! : Except String Bool)
+    let tg ← getComps a[2]!
+    return (loc, ⟨ab, tg⟩)
+
+def compsJ (p : Comps) : Json := strsJ p
+
+def optCompsJ : Option Comps → Json
+  | some p => compsJ p
+  | none => Json.null
+
+def linksJ (L : Links) : Json :=
+  Json.arr (L.map fun (loc, l) => Json.arr #[compsJ loc, Json.bool l.abs, compsJ l.target]).toArray
+
+def getLTensor (j : Json) : Except String LTensor := do
+  let e ← j.getObjVal? "ext"
+  let ext ← if e.isNull then pure none else (do
+    return some (⟨← getComps (← e.getObjVal? "path"), ← getNat e "off", ← getNat e "len"⟩ : LExt))
+  return ⟨← getNat j "off", ← getBytesList j "chunks", ext⟩
+
+def resolveL (j : Json) : Except String Json := do
+  let L ← getLinks j
+  let gas ← getNat j "gas"
+  let req ← getComps (← j.getObjVal? "requested")
+  let d := destinationPathL L gas req
+  return obj [
+    ("islink", Json.bool (isLinkL L gas req)),
+    ("realpath", optCompsJ (realpathL L gas req)),
+    ("dest", optCompsJ d),
+    ("entry", optCompsJ (destEntryL L gas req)),
+    ("entryIsLink", match destEntryL L gas req with
+      | some e => Json.bool (L.lookup e).isSome
+      | none => Json.null),
+    ("tmpParent", match d with
+      | some d => optCompsJ (tmpParentL L gas d)
+      | none => Json.null),
+    ("proper", Json.bool (properBase req)),
+    ("follow", Json.str (followName L gas req))]
+
+def lstJ (univ : List String) (exts : List (Nat × Ext)) (gas : Nat) (req : Comps) (s : LSt) : Json :=
+  (stJ univ exts s.st).mergeObj (obj [
+    ("links", linksJ s.links),
+    ("reach", optBytesJ (reachL s.links gas s.st req))])
+
+def runL (j : Json) : Except String Json := do
+  let kind ← getStr j "kind"
+  let s0 ← mkSt j
+  let f ← mkFaults j
+  let cb ← getBool j "cb"
+  let newMode ← getNat j "newMode"
+  let univ ← getStrs j "universe"
+  let L ← getLinks j
+  let gas ← getNat j "gas"
+  match kind with
+  | "saveL" => do
+    let req ← getComps (← j.getObjVal? "requested")
+    let ts ← (← getArr j "tensors").mapM getLTensor
+    let c : LCfg := ⟨gas, req, newMode, ts, cb⟩
+    -- what to report for the external tensor objects: ids with the fields as spelled
+    let lexts ← (← getArr j "exts").mapM fun x => do
+      let a ← (fromJson? x : Except String (Array Json))
+      let i ← (fromJson? a[0]! : Except String Nat)
+      let e := a[1]!
+      return (i, (⟨followName L gas (← getComps (← e.getObjVal? "path")), ← getNat e "off", ← getNat e "len"⟩ : Ext))
+    match saveL L c f 0 s0 with
+    | none => return obj [("unresolvable", Json.bool true)]
+    | some res =>
+      let crash := match res.steps.find? (·.failed) with
+        | some st => lstJ univ lexts gas req st.st
+        | none => Json.null
+      let crashLast := match (res.steps.filter (·.failed)).getLast? with
+        | some st => lstJ univ lexts gas req st.st
+        | none => Json.null
+      return obj [
+        ("unresolvable", Json.bool false),
+        ("entry", optCompsJ (destEntryL L gas req)),
+        ("trace", Json.arr (res.steps.map fun s => Json.arr (effJ s.eff ++ [Json.bool s.failed]).toArray).toArray),
+        ("raised", Json.bool res.faulted),
+        ("final", lstJ univ lexts gas req res.final),
+        ("crash", crash),
+        ("crashLast", crashLast),
+        ("linksKept", Json.bool (res.steps.all fun s => s.st.links == L))]
+  | "shardedL" => do
+    let jobsL ← (← getArr j "jobs").mapM fun x => do
+      let a ← (fromJson? x : Except String (Array Json))
+      let d ← getComps a[0]!
+      let ts ← (← (fromJson? a[1]! : Except String (Array Json))).toList.mapM getLTensor
+      return (d, ts)
+    let exts ← getExts j "exts"
+    match lowerJobs L gas jobsL with
+    | none => return obj [("unresolvable", Json.bool true)]
+    | some jobs =>
+      let res := saveSharded newMode cb jobs f s0
+      let crash := match res.steps.find? (·.failed) with
+        | some st => stJ univ exts st.st
+        | none => Json.null
+      let crashLast := match (res.steps.filter (·.failed)).getLast? with
+        | some st => stJ univ exts st.st
+        | none => Json.null
+      return obj [
+        ("unresolvable", Json.bool false),
+        ("jobs", strsJ (jobs.map (·.1))),
+        ("trace", Json.arr (res.steps.map stepJ).toArray),
+        ("raised", Json.bool res.faulted),
+        ("final", stJ univ exts res.final),
+        ("crash", crash),
+        ("crashLast", crashLast)]
+  | k => throw s!"unknown kind {k}"
+
+def parvalid (j : Json) : Except String Json := do
+  let cfg : Cfg := ⟨⟨"", 0⟩, ← getTensors j "tensors", ← getBool j "cb"⟩
+  let writer ← (← getArr j "writer").mapM getWriterEff
+  return obj [("r", Json.bool (parValid cfg (← getNat j "maxWorkers") writer)),
+    ("total", toJson (totalSize cfg.tensors))]
+
 def handle : Handler := fun m j =>
   match m with
   | "asave.run" => some (run j)
+  | "asave.runL" => some (runL j)
+  | "asave.resolveL" => some (resolveL j)
+  | "asave.parvalid" => some (parvalid j)
   | "asave.resolve" => some do
       let ls ← (← getArr j "links").mapM fun x => do
         let a ← (fromJson? x : Except String (Array String))
